@@ -47,6 +47,9 @@ CHECKS = {
  "C19": dict(technique="differential stateful property testing (proptest sessions) of the real server's publishDiagnostics against the library on a fresh index, under generated pyproject.toml configurations",
              text="Generated-input search over edit/close histories and configuration files; oracle: what the client last received for the changed document == undeclared + cycle + scope findings of a fresh index of the latest contents minus the codes the generated configuration disables; malformed / partially invalid configuration must leave the rest effective. Exploration only.",
              note="trusted: the three library collectors as reference for the findings themselves (they are judged by C16/C17); the configuration meaning is ground truth from the generator", ref="DESIGN.md 4 C19", engine="vengine"),
+ "C17": dict(technique="property-based testing (proptest) with generator ground truth for flag / no-flag at exact tokens, and a round-trip oracle through the real server: apply quick fix / completion edit -> CPython parses -> parameter present in the same function only -> warning gone",
+             text="Generated-input search over function shapes x expression roles x binding situations; oracle: by-construction ground truth plus the edit round trip judged with CPython's parser. Exploration only.",
+             note="trusted: the generator's ground truth table (24 roles x 16 bindings) and CPython 3.11 for the edited documents", ref="DESIGN.md 4 C17", engine="vengine"),
 }
 PENDING = {
 }
